@@ -142,6 +142,7 @@ func (e *Engine) tracef(format string, a ...interface{}) {
 
 func (e *Engine) execEntry(entry *ssa.Function) {
 	e.p.maxAlloc = e.cfg.MaxAlloc
+	e.entryPkg = entry.Pkg
 	e.p.allocViol = e.cfg.AllocViolation
 	e.p.sched = newSchedState()
 	g := e.newGoroutine("main")
